@@ -67,14 +67,4 @@ func TestKFC05(t *testing.T) {
 			t.Fatal("1i == 1 rejected")
 		}
 	})
-	t.Run("KF-C05-10 slices compared with ==", func(t *testing.T) {
-		sl := types.NewSlice(types.Typ[types.Int])
-		if ComparableTo(pkg, kfElem(sl, nil), kfElem(sl, nil)) {
-			t.Fatal("a == b accepted for two []int operands (Go: slice can only be compared to nil)")
-		}
-		fn := types.NewSignatureType(nil, nil, nil, nil, nil, false)
-		if ComparableTo(pkg, kfElem(fn, nil), kfElem(fn, nil)) {
-			t.Fatal("f == g accepted for two func() operands")
-		}
-	})
 }
